@@ -551,7 +551,7 @@ def c06(tier, seed):
 
 
 def c05(tier, seed):
-    return check_obs(tier)
+    return check_obs(tier) + import_obs() + search_obs()
 
 
 def import_obs():
@@ -560,8 +560,18 @@ def import_obs():
                note='every candidate / size / file content / digest / recorded hash / hash size 2..16 / migration flag / short read; tommy_hashdyn_search, open, pread, close, memhash by stub')]
 
 
+def search_obs():
+    H = 'harness/h_search.c'
+    return [Ob('search.file_compare', H, 'h_search_compare', unwind=18, small_path=True, timeout=900, mem=6, cost=5, replay=False,
+               functions=['search_file_compare (cmdline/search.c)'],
+               note='every stamp of the missing file and of the candidate, block state, file content, digest, recorded hash, hash size 2..16, migration flag, short read; open / pread / close / memhash by stub'),
+            Ob('search.fetch', H, 'h_search_fetch', unwind=18, small_path=True, timeout=900, mem=6, cost=5, replay=False,
+               functions=['state_search_fetch (cmdline/search.c)', 'search_file_compare (cmdline/search.c)'],
+               note='the index search by stub applying the REAL comparison to one candidate; file_block_size by stub (its own unit: elem.file_block_size)')]
+
+
 def c19(tier, seed):
-    return sync_hash_obs() + sync_prehash_obs() + import_obs() + scanfile_obs() + filecopy_obs()
+    return sync_hash_obs() + sync_prehash_obs() + import_obs() + search_obs() + scanfile_obs() + filecopy_obs()
 
 
 def c09(tier, seed):
@@ -780,18 +790,18 @@ PROPS['C06'].update(
     assumptions=['bounded: 2 disk slots in quick (3 thorough), block size 8', 'that the bytes hashed are the bytes on disk, the writer threads, parity_write I/O, autosave ordering and histories are not addressed', 'the extent operations are checked against the extent the finder returns (tree lookups, inserts and removals by recording contracts); the global invariants of the two trees (no overlap, every block mapped, monotone positions) are ASSUMED by the search units (they are what fs_check verifies at run time) and fs_check itself is NOT under an obligation', 'search side: the four comparators for all extents / arguments (proof); fs_is_empty, fs_par2extent_get_unlock / fs_par2file_find / fs_par2block_find and fs_size through the REAL tommy_tree_search_compare on search trees of at most 7 extents (bounded)'],
     not_covered=['fs_check, the AVL insert / remove / rebalance of tommy_tree, fs_file2par_find', 'parity_allocated_size / parity_used_size', 'io.c worker threads', 'state_write ordering vs parity_sync'])
 PROPS['C14'].update(
-    explanation='Only the DECISION of six of the seven interlocks (the lock: main() stops with a failing status when a configured, not skipped lock cannot be taken, before anything is read; the sync branch of main reads the content, scans - where the scan interlocks stop it - and only then calls state_sync and state_write), each on the real code (mechanically extracted regions; exit() routed to a checking stub): (1) end of the scan: sync stops with a failing status iff on some disk every previously known file is now missing or rewritten (no unchanged, moved or restored file, and at least one removed or changed) and --force-empty was not given; diff only reports; (2) head of state_sync: sync stops iff the start position is beyond the array, a parity file cannot be opened, or some parity file of ANY level holds fewer whole blocks than parity_used_size() and neither --force-full nor --force-realloc was given - this region ends before the first parity_chsize / state_write / parity write of state_sync; parity_used_size is one past the last synced (BLK) block over all disks, parity_allocated_size one past the last file block; (3) content file records: a block size or hash size different from the configuration (or invalid) is refused, without configuration it is adopted; a recorded disk not found by name nor by UUID is refused, found by UUID is a rename that is saved.',
+    explanation='Only the DECISION of the seven interlocks (the lock: main() stops with a failing status when a configured, not skipped lock cannot be taken, before anything is read; the sync branch of main reads the content, scans - where the scan interlocks stop it - and only then calls state_sync and state_write), each on the real code (mechanically extracted regions; exit() routed to a checking stub): (1) end of the scan: sync stops with a failing status iff on some disk every previously known file is now missing or rewritten (no unchanged, moved or restored file, and at least one removed or changed) and --force-empty was not given; diff only reports; (2) head of state_sync: sync stops iff the start position is beyond the array, a parity file cannot be opened, or some parity file of ANY level holds fewer whole blocks than parity_used_size() and neither --force-full nor --force-realloc was given - this region ends before the first parity_chsize / state_write / parity write of state_sync; parity_used_size is one past the last synced (BLK) block over all disks, parity_allocated_size one past the last file block; (3) content file records: a block size or hash size different from the configuration (or invalid) is refused, without configuration it is adopted; a recorded disk not found by name nor by UUID is refused, found by UUID is a rename that is saved.',
     trusted_base=['region extraction of state_diffscan / state_sync / state_read_content (5 regions)', 'parity_create / parity_size / parity_used_size / lev_name / sgetb32 / find_disk_by_name / find_disk_by_uuid by stub', 'the meaning of the scan counters (count_equal, count_move, count_restore, count_change, count_remove) as documented in struct snapraid_scan'],
-    assumptions=['"without altering any content or parity file" is a whole-program ordering / frame statement over the file system and is NOT decided (only: the parity-size region precedes every resize / write inside state_sync; parity_create may still create a missing, empty parity file)', 'the zero-size interlock (scan_file) is NOT under an obligation; of the lock only the decision in main() is (a lock that cannot be taken stops the command before any state is read; lock_lock itself - open + flock - is the OS)', 'how scan_file increments the counters is NOT under an obligation', 'bounded: 1..3 disks; block size 256 in the parity-size region; parity files below 2^32 blocks; -B start + count below 2^32'],
-    not_covered=['scan_file / scan_dir (counters, zero-size check)', 'lock_lock / lock_unlock (cmdline/util.c)', 'that a refusal leaves every file byte-identical'])
-MANIFEST_TEXT['C14'] = dict(level_text='Narrow: the refuse / proceed decision of the empty-disk, short-parity, block-size, hash-size and missing-disk interlocks is decided for all inputs on the extracted regions; that nothing was modified before the refusal, the zero-size interlock and the lock are not - level other.',
+    assumptions=['"without altering any content or parity file" is a whole-program ordering / frame statement over the file system and is NOT decided (only: the parity-size region precedes every resize / write inside state_sync; parity_create may still create a missing, empty parity file)', 'zero-size interlock: decided on the whole body of scan_file (unit scan.scan_file: a recorded non-empty file found by path that is now empty stops sync unless --force-zero; diff only reports); of the lock only the decision in main() is (a lock that cannot be taken stops the command before any state is read; lock_lock itself - open + flock - is the OS)', 'the counters: scan_file increments exactly one of equal / move / restore / change / insert / copy per entry (unit scan.scan_file); count_remove (files not met by the scan) is NOT under an obligation', 'bounded: 1..3 disks; block size 256 in the parity-size region; parity files below 2^32 blocks; -B start + count below 2^32'],
+    not_covered=['scan_dir / scan_disk', 'lock_lock / lock_unlock (cmdline/util.c)', 'that a refusal leaves every file byte-identical'])
+MANIFEST_TEXT['C14'] = dict(level_text='Narrow: the refuse / proceed decision of each interlock (empty disk, zero size, short parity, block size, hash size, missing disk, lock taken in main) is decided for all inputs on extracted regions / the extracted body of scan_file, plus the call order of the sync branch of main; that every file is byte-identical after a refusal is a file-system frame and is not decided - level other.',
                             design_ref='DESIGN.md section 4', level_note='regions by mechanical extraction; callees by stub; frame over the file system not decided', technique='CBMC drivers on mechanically extracted regions of real cmdline/scan.c, sync.c, state.c; bounded unit on real cmdline/parity.c')
 PROPS['C19'] = dict(level='other', obligations=c19)
 PROPS['C19'].update(
-    explanation='What sync does with the hash of a block just read (region of state_sync_process, every block state / recorded hash / digest / hash size / migration flag): a block whose hash is only provisional (REP: inherited from a file with the same name, size and time-stamp, or replaced data) and does not match the data stops the stripe with a plain error - it is neither recorded nor "repaired" from parity, its state and hash are kept; a synced (BLK) block that no longer matches is a silent error queued for in-memory repair; matching data raises nothing; a pending (CHG) block forces a parity update unless its fresh hash equals a unique recorded one. Together with the completion region of C06 (no BLK unless the stripe had no error) this is "the data is hashed before its stripe is recorded as synced, and a mismatch stops the stripe".',
-    trusted_base=['memhash by contract (arbitrary digest per kind)', 'region extraction of state_sync_process'],
-    assumptions=['copy-detection eligibility in scan.c (same name/size/time-stamp), file_copy, the pre-hash pass state_hash_process, state_import_fetch / state_search_fetch of check/fix are NOT under an obligation'],
-    not_covered=['scan.c copy detection', 'file_copy', 'state_hash_process', 'import.c / search.c fetch functions'])
+    explanation='Every place where data or a hash is taken over without having been computed from the file at hand, each on the real code. (1) scan_file (whole body, callees by recording stub): a file keeps its object - blocks, hashes, parity positions - only when found by inode or by path with the same size and time-stamp; anything else becomes a NEW file object; hashes are inherited (file_copy) only with copy detection on, only from a file the stamp index returned for name (with a usable sub-second stamp) or path + size + time-stamp, and only if file_is_full_hashed_and_stable says so (real: blocks exist, all BLK/REP, none awaiting rehash). (2) file_copy (real): every inherited block becomes REP - provisional, parity not valid - never BLK. (3) sync hash region: a REP block whose data does not match stops the stripe with an error, is neither recorded nor repaired; BLK mismatch is a silent error; together with the completion region of C06 the data is hashed before the stripe is recorded. (4) pre-hash region (sync -h): any mismatch of a provisional hash sets skip_sync before parity is touched. (5) check / fix: state_import_fetch and search_file_compare / state_search_fetch (real) return data only after reading and hashing it in that call and comparing with the recorded hash of the block being replaced, whatever its state.',
+    trusted_base=['memhash by contract (arbitrary digest per kind)', 'tommy_hashdyn_search / open / pread / close by stub', 'region extraction of state_sync_process, state_hash_process and of the body of scan_file'],
+    assumptions=['scan_dir / scan_disk (which entries reach scan_file, removal of past inodes when they are not persistent) are NOT under an obligation', 'the index structures (tommy_hashdyn) are replaced by stubs that return a consistent element or nothing', 'bounded: files of <= 4 blocks in file_is_full_hashed_and_stable, <= 3 in file_copy; block size 8 in the fetch drivers'],
+    not_covered=['scan_dir / scan_disk', 'state_import / import_file (building the import index)', 'state_search / search_dir', 'how repair() uses the fetched buffer afterwards (C05 units)'])
 PROPS['C16'].update(
     explanation='Format stability is decided as "every constant and encoding equals a definition that is NOT in the repository": parity coefficients and every lookup table (table-free GF(2^8) spec, documented Cauchy / power matrix, all indices); CRC-32C tables == reflected 0x82F63B78 and the checksum function; the variable-length integer / little-endian / string codecs (all values); the nanosecond field encoding; the block layout rule of a file (block sizes 2^10..2^24); the split-parity address map; and main() switches the engine to the mode the configuration selects (z-parity = Vandermonde third row) after reading it. Any self-consistent change of one of them (which the suite cannot see, since it creates its arrays with the binary under test) fails a named obligation.',
     trusted_base=['spec/gf_spec.h, the bitwise CRC and varint specifications in the drivers'],
@@ -812,8 +822,8 @@ MANIFEST_TEXT.update({
                 design_ref='DESIGN.md section 4', level_note='memhash / raid_* by contract; <= 3 failed blocks; state_check_process glue, write-back and file_post not covered', technique='CBMC code contracts (dfcc replace) + region extraction on real cmdline/check.c'),
     'C06': dict(level_text='The three decisions in state_sync_process that tie "BLK" to "parity recomputed from these buffers" are decided for all flag / state combinations within small bounds; block-map invariants and histories are not - level other.',
                 design_ref='DESIGN.md section 4', level_note='callees by recording contracts; 2-3 disk slots; fs_* trees, threads, I/O, autosave not covered', technique='CBMC code contracts (dfcc replace) + region extraction on real cmdline/sync.c'),
-    'C19': dict(level_text='The stripe-level rule "a provisional hash is checked against the data before the stripe can be recorded, a mismatch stops it" is decided on the extracted region for all inputs; eligibility of copies in scan.c and the import/search fetchers are not - level other.',
-                design_ref='DESIGN.md section 4', level_note='memhash by contract; scan.c, file_copy, pre-hash pass, import/search not covered', technique='CBMC driver on a mechanically extracted region of real cmdline/sync.c'),
+    'C19': dict(level_text='Every per-call rule of the statement is decided for all inputs: identity and copy eligibility in scan_file, provisional state in file_copy, the hash / pre-hash regions of sync, and the verifying fetchers of import.c and search.c; which entries reach scan_file (directory walk, inode persistence handling in scan_disk) and the index structures are not - level other.',
+                design_ref='DESIGN.md section 4', level_note='memhash and the index structures by stub; scan_dir / scan_disk and the building of the import / search indexes not covered', technique='CBMC drivers on real cmdline/import.c, search.c, elem.c, on the extracted body of scan_file and on a mechanically extracted region of real cmdline/sync.c'),
     'C16': dict(level_text='Bit-for-bit stability of tables, checksum, codecs, layout and address map is decided against definitions outside the repo; the block hash functions are NOT pinned - hence other, with that gap stated.',
                 design_ref='DESIGN.md section 4', level_note='hash functions (murmur3/spooky2/metro) and record tags not pinned', technique='composition of the C02 / C09 / C10 / C17 obligations + file block layout'),
     'C04': dict(level_text='Detection and marking LOGIC is decided on the functions / regions that take those decisions; that every stripe is actually visited and the right file named is not - level other, narrow.',
